@@ -30,11 +30,11 @@ def gen_cases(ctx):
                 mk(4, [dict(g, g="op")])
     # measurement groups in each basis at any position, with gates before and after
     for b in ("C", "X", "Y", "U"):
-        for _ in range(10):
+        for k in range(10 if b != "U" else 2 * len(us)):
             n = rng.randrange(1, 5)
             qs = rng.sample(range(n), rng.randrange(0, n + 1)) if b != "U" else [rng.randrange(n)]
             d = {"g": "meas", "basis": b, "qs": qs}
-            if b == "U": d["u"] = rng.choice(us)
+            if b == "U": d["u"] = us[k % len(us)]           # every matrix of the pool, the non-symmetric ones included
             pre = rand_circuit(rng, n, rng.randrange(1, 5), us, allow=("op",)); post = rand_circuit(rng, n, rng.randrange(0, 4), us, allow=("op",))
             mk(n, pre + [d] + post)
     # parametric gates (after set) and Pauli-string gates
